@@ -1918,6 +1918,8 @@ static Chunk *output_comment_c(Chunk *first)
 
       bool replace_comment = (  options::cmt_trailing_single_line_c_to_cpp()
                              && first->IsLastChunkOnLine()
+                             && first->Len() >= 4                  // a comment cut off by the end of the file has no closer
+                             && first->GetStr().startswith("*/", first->Len() - 2)
                              && first->Str().at(2) != '*');
 
       if (  replace_comment
